@@ -665,6 +665,15 @@ func (v Value) convert(t Type) (res Value) {
 			return String(string(rune(v.num)))
 		}
 		data := v.data()
+		if v.t.base() == TypeSlice && v.t.value() == TypeInt32 {
+			// string([]rune{...}): the elements are code points, each one is encoded as
+			// UTF-8 (a []byte, and the byte-valued result of []rune(s), keep their bytes)
+			r := make([]rune, len(data))
+			for k, v := range data {
+				r[k] = rune(v.num)
+			}
+			return String(string(r))
+		}
 		b := make([]byte, len(data))
 		for k, v := range data {
 			b[k] = byte(v.num)
